@@ -442,11 +442,36 @@ MUT_CHARS = list('{}[]:,"\\0123456789-+.eEtrufalsn/ \t\n\r') + ['\x00', '\x1f', 
                                                                 '\ufeff', 'é', '\U0001f600', 'N', 'I', '\'', 'x', 'u']
 
 
+STRUCT = '{}[]:,"'
+
+
 def mutate(rng, text):
     if not text:
         return rng.choice(MUT_CHARS)
     i = rng.randrange(len(text) + 1)
     k = rng.random()
+    if k < 0.25:
+        # structure-aware edits: act on a structural character (separator dropped / doubled / exchanged, trailing comma,
+        # closer exchanged), or swap two neighbours
+        pos = [j for j, c in enumerate(text) if c in STRUCT]
+        if pos:
+            j = rng.choice(pos)
+            c = text[j]
+            op = rng.randrange(6)
+            if op == 0:
+                return text[:j] + text[j + 1:]
+            if op == 1:
+                return text[:j] + c + text[j:]
+            if op == 2:
+                return text[:j] + rng.choice(STRUCT) + text[j + 1:]
+            if op == 3 and c in '}]':
+                return text[:j] + ',' + text[j:]
+            if op == 4 and c in '{[':
+                return text[:j + 1] + ',' + text[j + 1:]
+            if j + 1 < len(text):
+                return text[:j] + text[j + 1] + text[j] + text[j + 2:]
+            return text[:j]
+        k = 0.5
     if k < 0.35 and i < len(text):
         return text[:i] + text[i + 1:]
     if k < 0.7:
@@ -770,6 +795,43 @@ def run_serial(ctx, values, indents, max_depth):
                    % len(textdiff))
 
 
+def coq_crosscheck(ctx, texts):
+    """Evaluate a few cases inside Coq (vm_compute on the model itself) and compare with the extracted runner: spot-check of
+    the extraction + OCaml driver. One coqc call; the generated file lives under coq/work/ (not part of the development)."""
+    import subprocess
+    from hv import COQ
+    outs = ctx.model(['jps %s' % hx(t) for t in texts])
+    lines = ['From Hv Require Import Prelude TablesJson Json.', 'Open Scope N_scope.']
+    for k, (t, o) in enumerate(zip(texts, outs)):
+        src = '[' + '; '.join(str(ord(c)) for c in t) + ']'
+        p = o.split(' ')
+        if p[0] == 'ok':
+            body = '[' + '; '.join(p[1].split(';') if len(p) > 1 and p[1] else []) + ']'
+            want = '(0, %s)' % body
+        elif p[0] == 'err':
+            want = '(%s, [])' % p[1]
+        else:
+            want = '(1000, [])'
+        lines.append('Goal (match xparse xmax_depth %s with Ok v => (0, xserialize_pretty 1 v) | Err e => (e, []) '
+                     '| Crash w => (1000, []) end) = %s. Proof. vm_compute. reflexivity. Qed.' % (src, want))
+    os.makedirs(COQ + '/work', exist_ok=True)
+    path = COQ + '/work/C13_cases.v'
+    open(path, 'w').write('\n'.join(lines) + '\n')
+    p = subprocess.run(['timeout', '300', 'coqc', '-Q', COQ + '/theories', 'Hv', path], stdout=subprocess.PIPE,
+                       stderr=subprocess.STDOUT, cwd=COQ + '/work')
+    ctx.evaluations += len(texts)
+    ctx.count('coq-vm_compute-crosscheck', len(texts))
+    if p.returncode != 0:
+        out = p.stdout.decode('utf-8', 'replace')
+        mm = re.search(r'line (\d+)', out)
+        k = int(mm.group(1)) - 3 if mm else -1
+        t = texts[k] if 0 <= k < len(texts) else '?'
+        report(ctx, {'kind': 'parse', 'text': t, 'limit': None, 'stream': 'coq-crosscheck', 'line': 'jps %s' % hx(t)},
+               'extracted runner=' + (outs[k][:200] if 0 <= k < len(outs) else '?'), 'vm_compute in Coq: ' + out[-300:],
+               cls='extraction', failing_input=False,
+               what='the extracted OCaml model and the Coq model (vm_compute) disagree: extraction / driver problem')
+
+
 def check_alloc(ctx, acases):
     """bytes really requested by Value::parse <= model meter <= 1024 * characters; returns the worst measured ratio."""
     real = ctx.impl(['jalloc %s' % hx(t) for t in acases])
@@ -884,6 +946,10 @@ def run(ctx):
                                                                  '[' + '{},' * 500 + '{}]', '[' + '"",' * 500 + '""]', ' ' * 3000 + '1']
     worst = check_alloc(ctx, acases)
     ctx.extra['alloc_worst_bytes_per_input_byte'] = round(worst, 1)
+
+    # 3d. extraction spot-check: the same cases inside Coq
+    pick = [c[0] for c in docs if len(c[0]) <= 120 and c[3] is None]
+    coq_crosscheck(ctx, [t for t, _tag, _e in corpus[:12]] + pick[:14] + pick[-14:])
 
     # 4. random values through the serialisers and back
     vals = serial_values(ctx)
